@@ -13,7 +13,8 @@ use std::path::Path;
 use std::sync::{Arc, Mutex};
 use std::time::{Duration, Instant};
 
-pub const OP_DEADLINE: Duration = Duration::from_secs(12);
+/// generous: the machine may be heavily loaded; a hang that follows a panic is cut short (see OpHandle::wait)
+pub const OP_DEADLINE: Duration = Duration::from_secs(45);
 
 pub struct Out {
     pub model: Option<String>,
@@ -131,6 +132,8 @@ fn op_kind(name: &str) -> &str {
         "ingest"
     } else if name.starts_with("flush") {
         "flush"
+    } else if name.starts_with("evict") {
+        "evict"
     } else if name.starts_with('q') {
         "query"
     } else {
@@ -230,7 +233,7 @@ pub fn run(case: &Sx, dir: &Path) -> Vec<Out> {
             env.query(0, 0, kind, OP_DEADLINE)
         }
     };
-    let reached = ctl.wait_parked(Duration::from_secs(10), || main_h.poll());
+    let reached = ctl.wait_parked(Duration::from_secs(30), || main_h.poll());
     let mut injected_any = false;
     tr("parked (or not reached)");
     if reached {
@@ -245,6 +248,12 @@ pub fn run(case: &Sx, dir: &Path) -> Vec<Out> {
                     next_batch += 1;
                 }
                 "flush" => others.push(env.flush()),
+                "evict" => {
+                    // the eviction completes before the operations injected after it start
+                    let mut h = env.evict();
+                    h.wait(OP_DEADLINE);
+                    others.push(h);
+                }
                 k => {
                     let kind = QKind::parse(k).expect("inject kind");
                     queries.push(((qn, 0), kind, env.query(qn, 0, kind, OP_DEADLINE)));
@@ -252,34 +261,48 @@ pub fn run(case: &Sx, dir: &Path) -> Vec<Out> {
                 }
             }
         }
+        // Wait for the injected operations while the thread stays parked.  An operation that has not reached its
+        // first sync point yet is still starting; a query past its snapshot, or any operation started while the
+        // parked thread holds no table lock, is running (long limit); an operation that entered and then made no
+        // progress for 250 ms is taken to be blocked by a lock of the parked thread: it completes after the release.
         let t0 = Instant::now();
+        let long = |_: ()| if first_panic().is_some() { Duration::from_millis(1500) } else { Duration::from_secs(8) };
+        let mut entered: std::collections::HashMap<String, Instant> = std::collections::HashMap::new();
+        let q_free = who == "q" && !lock_holding_q;
         loop {
             let mut all = true;
-            let mut past_snapshot = false;
+            let mut keep_waiting = false;
+            let el = t0.elapsed();
             for (key, _, h) in queries.iter_mut() {
-                if !h.poll() {
-                    all = false;
-                    if ctl.seen_since(from, Role::Querier(key.0), "snapshot:copied") {
-                        past_snapshot = true;
-                    }
+                if h.poll() {
+                    continue;
+                }
+                all = false;
+                let role = Role::Querier(key.0);
+                if ctl.seen_since(from, role, "snapshot:copied") || !ctl.seen_since(from, role, "snapshot:begin") {
+                    keep_waiting |= el < long(());
+                } else {
+                    let t = *entered.entry(h.name.clone()).or_insert_with(Instant::now);
+                    keep_waiting |= t.elapsed() < Duration::from_millis(250);
                 }
             }
             for h in others.iter_mut() {
-                if !h.poll() {
-                    all = false;
+                if h.poll() {
+                    continue;
+                }
+                all = false;
+                let started = match h.role {
+                    Role::Ingester(_) => ctl.seen_since(from, h.role, "ingest:begin"),
+                    _ => ctl.seen_since(from, Role::None, "h:flush_start"),
+                };
+                if q_free || !started {
+                    keep_waiting |= el < long(());
+                } else {
+                    let t = *entered.entry(h.name.clone()).or_insert_with(Instant::now);
+                    keep_waiting |= t.elapsed() < Duration::from_millis(250);
                 }
             }
-            if all {
-                break;
-            }
-            let el = t0.elapsed();
-            let long_wait = (who == "q" && !lock_holding_q) || past_snapshot;
-            let limit = if long_wait {
-                if first_panic().is_some() { Duration::from_millis(1500) } else { Duration::from_secs(8) }
-            } else {
-                Duration::from_millis(200)
-            };
-            if el > limit {
+            if all || !keep_waiting {
                 break;
             }
             std::thread::sleep(Duration::from_millis(2));
